@@ -43,6 +43,8 @@ var c10Projects = map[string]*project{
 	// literal as written
 	"S7": {Root: `"abc" // {minLength: 1}`},
 	"S8": {Root: "@lit", Types: map[string]string{"@lit": `"from type"`}},
+	// a text without any example element: whatever a pooled loader still holds shows here
+	"S9": {Root: "# nothing here yet"},
 	// fails in the checker
 	"S5": {Root: "{\n\t\"a\": 1, // {min: 0}\n\t\"b\": @missing,\n\t\"c\": 2 // {min: 5}\n}"},
 }
@@ -59,6 +61,9 @@ type c10Sym struct {
 }
 
 func (s c10Sym) String() string { return s.Obj + "." + s.Op }
+
+var c10Disturbers = []c10Sym{{"S1", "AddType-refused"}, {"S3", "Check"}, {"S4", "Check"}, {"S5", "Check"}, {"S3", "GetAST"}, {"S1", "Example"}, {"S6", "OpenAPI"}, {"S1", "Dereference"},
+	{"D2", "Check"}, {"D4", "Len"}, {"R1", "Example"}, {"E1", "Values"}, {"G", "1e2"}, {"S8", "Example+write"}}
 
 func c10Alphabet() []c10Sym {
 	var out []c10Sym
@@ -90,6 +95,12 @@ func c10Alphabet() []c10Sym {
 		}
 	}
 	out = append(out, c10Sym{"E1", "Values+write"}, c10Sym{"S1", "Used+write"})
+	for _, op := range []string{"Check", "Example", "GetAST", "Used"} {
+		out = append(out, c10Sym{"S9", op})
+	}
+	// registrations that are refused (a name already taken, an invalid name) must leave
+	// the object as it was
+	out = append(out, c10Sym{"S1", "AddType-refused"}, c10Sym{"S6", "AddType-refused"})
 	for _, op := range []string{"Check", "Len", "Lexemes"} {
 		out = append(out, c10Sym{"D1", op})
 	}
@@ -138,7 +149,7 @@ func c10Exec(objs *c10Objects, sym c10Sym) (res c10Result) {
 	}
 	rec, site := guard(func() {
 		switch sym.Obj {
-		case "S1", "S2", "S3", "S4", "S5", "S6", "S7", "S8":
+		case "S1", "S2", "S3", "S4", "S5", "S6", "S7", "S8", "S9":
 			s := objs.s[sym.Obj]
 			var buildErr error
 			if s == nil {
@@ -184,6 +195,14 @@ func c10Exec(objs *c10Objects, sym c10Sym) (res c10Result) {
 					for _, in := range infos {
 						j, e := in.SchemaObject().MarshalJSON()
 						fmt.Fprintf(&b, "%v:%s|%v;", in.Type(), j, e)
+						// the properties (own and inherited) are resolved lazily, each
+						// time the informer is asked
+						if oi, ok := in.(openapi.ObjectInformer); ok {
+							for _, pi := range oi.PropertiesInfos() {
+								pj, pe := pi.SchemaObject().MarshalJSON()
+								fmt.Fprintf(&b, " %s%v=%s|%v", pi.Key(), pi.Optional(), pj, pe)
+							}
+						}
 					}
 					return b.String()
 				})
@@ -193,6 +212,11 @@ func c10Exec(objs *c10Objects, sym c10Sym) (res c10Result) {
 			case "Used":
 				u, err := s.UsedUserTypes()
 				set(func() string { return strings.Join(u, ",") + "|" + errSnap(err) })
+			case "AddType-refused":
+				taken := sortedKeys(c10Projects[sym.Obj].Types)[0]
+				e1 := s.AddType(taken, jschema.New("other", `"another type under a name that is taken"`))
+				e2 := s.AddType("not a type name", jschema.New("other", `1`))
+				set(func() string { return errSnap(e1) + " / " + errSnap(e2) })
 			case "Used+write":
 				u, err := s.UsedUserTypes()
 				snap := strings.Join(u, ",") + "|" + errSnap(err)
@@ -414,7 +438,7 @@ func init() {
 		ID:        "C10",
 		Inst:      true,
 		Technique: "exhaustive operation histories over several schema/rule/regex/document objects, each executed under every sync.Pool answer within a deviation bound with a scribbling pool model; every retained result is re-read after every step and compared with its snapshot and with the result of the same call made first in a brand-new process",
-		Rule:      "alphabet: 50 symbols = {Check, Example, GetAST, OpenAPI, Dereference, Len, UsedUserTypes} x 6 schema projects (deep valid with types, one with every rule kind the converter handles, shallow valid, fails in scanner, fails in rule loader, fails in checker) + enum rule {Check, Values, Len, GetAST} + regex {Check, Example, Len} + JSON document {Check, Len, lexeme stream}; repeated symbols act on the already used object; all histories of length <=3 (thorough 4); pool answers: default (most recent), any older item, New(), <=1 (thorough 2) deviations; pooled buffers are overwritten with 0xEE when put back; non-trivial = histories with more than one explored pool environment",
+		Rule:      "alphabet: 50 symbols = {Check, Example, GetAST, OpenAPI, Dereference, Len, UsedUserTypes} x 6 schema projects (deep valid with types, one with every rule kind the converter handles, shallow valid, fails in scanner, fails in rule loader, fails in checker) + enum rule {Check, Values, Len, GetAST} + regex {Check, Example, Len} + JSON document {Check, Len, lexeme stream}; repeated symbols act on the already used object; quick: all histories of length <=2 and those of length 3 that start with one of 13 disturbers; thorough: all of length <=4; pool answers: default (most recent), any older item, New(), <=1 (thorough 2) deviations; pooled buffers are overwritten with 0xEE when put back; non-trivial = histories with more than one explored pool environment",
 		Bounds: func(tier string) map[string]any {
 			return map[string]any{"history_length": map[string]int{"quick": 3, "thorough": 4}[tier], "pool_deviations": map[string]int{"quick": 1, "thorough": 2}[tier], "symbols": len(c10Alphabet())}
 		},
@@ -448,6 +472,21 @@ func init() {
 				for _, s := range alpha {
 					rec(append(h, s))
 				}
+			}
+			if !w.Thorough() {
+				// quick tier: every history of length <= 2; of length 3 those that start
+				// with a disturber (a load that fails half-way, a pooled buffer user, a
+				// document that ends inside a literal, an exponent literal)
+				L = 2
+				rec(nil)
+				L = 3
+				for _, d := range c10Disturbers {
+					rec([]c10Sym{d})
+				}
+				if w.Shard == 0 {
+					w.Count("histories", i)
+				}
+				return
 			}
 			rec(nil)
 			if w.Shard == 0 {
